@@ -9,7 +9,7 @@ EXPLANATION = (
     "(vacant entry, lock held), spawned as its own task, with a single pay site outside any loop; (A4) pay only through "
     "add_payment_attempt==Ok; (A5) every lifecycle path answers exactly once, so the table entry (mutual exclusion) lives "
     "from spawn to answer; (A6) the provider clauses the restart path relies on: wait_payment reports none only after every listed pending part was "
-    "waited for (C15-V1..V5) and pay reports failure only when final (C16-D); (A7) the Free marker is written only generation-guarded, so a superseded attempt cannot erase a newer in-flight marker (C02-S7). Overlap of two lifecycles after the answer is not enumerated."
+    "waited for (C15-V1..V5) and pay reports failure only when final (C16-D); (A7) the Free marker is written only generation-guarded, so a superseded attempt cannot erase a newer in-flight marker (C02-S7); (A9) a stored Succeeded/Pending record reads back as that variant - fetch mapping, entry selection, record round-trip (C08-W4, cited). Overlap of two lifecycles after the answer is not enumerated."
 )
 ASSUMPTIONS = ["C15/C16: the provider re-checks the node before reporting failure", "tokio::sync::Mutex provides mutual exclusion on the payments table"]
 
@@ -41,3 +41,7 @@ def run(F, X, rep):
     # hash would look Free and be paid again): the Free write is generation-guarded (C02-S7)
     import rules_store as S
     S.s7_generation_guard(C, rep, "C05-A7")
+    # A9: A1/A2 start from what fetch_payment_info reports: a stored Succeeded/Pending record must read back as that variant (C08-W4 and
+    # the record round-trip, cited) - a record that reads back as Free is paid again
+    S.w4_fetch_mapping(C, rep, "C05-A9")
+    S.rt_records_roundtrip(C, rep, "C05-A9")
